@@ -3,12 +3,16 @@ Line-protocol driver for C04 (and the layer byte-limit clause of C10).
 request : ov <MaxFileBytes> <req> <hist> <probes> <layers>          (grammar: harness/cmd/c04gen/main.go)
 reply   : err=1 | err=0 nv=<n> walk=<views> look=<views> spec_walk=<views> spec_look=<views>
           wf=<one 0/1 per view> cls=<failing clauses per view> dec=<0|1> fw=<0|1> sz=<0|1>
+          dd=<0|1> alt_wf=<one of - 0 1 per view> alt_walk=<views> alt_look=<views>
   walk/look     : the model of image.FromV1Image (literal lock-step loader, final-view pruning)
   spec_walk/... : the OCI visibility rule (for the last view restricted to the needed files)
   wf            : hypothesis H of C04_view_partial per view;  cls: which clauses of H fail
   dec           : the one-view-at-a-time formulation `viewOf` agrees with the literal loader on every path
   fw            : the forward fold `ociApply` agrees with the visibility rule on every view where H holds
   sz            : no file node of any view has size ≥ MaxFileBytes (C10_layer_bytes on the model)
+  alt_*         : views whose tars repeat a member name: H and the OCI rule on the image with the repeats left out
+                  (`dedupFirst`: the first entry counts); '-' no repeated name, `~` not computed (alt_wf ≠ 1)
+  dd            : the model's view of the image is its view of the image with the repeats left out, wherever alt_wf = 1
 -/
 import Scalibr.Base.Wire
 import Scalibr.Model.OverlayImage
@@ -123,11 +127,23 @@ def handle (line : String) : String :=
           let dec := (List.range n).all fun j => U.all fun q => (chains.getD j emptyTree) q == viewOf eff j q
           let fw := (List.range n).all fun j => !(H eff j) || U.all fun q => obsOf (specView eff j q) == obsOf (ociView eff j q)
           let sz := views.all fun t => sizesBelow limit U t
+          -- duplicate member names: the same image with every repeated entry left out ("first wins"), where that reading is well-formed
+          let effD := eff.map (dedupFirst [])
+          let altWf : List Char := (List.range n).map fun j =>
+            if !((eff.take (j+1)).any (duplicateEntry [])) then '-' else if H effD j && !bigD j then '1' else '0'
+          let altSpecs : List (Option Tree) := (List.range n).map fun j =>
+            if altWf.getD j '-' = '1' then
+              let s := specView effD j
+              some (if j + 1 = n then specRequired U reqF depth s else s)
+            else none
+          let dd := (List.range n).all fun j => altWf.getD j '-' != '1' || U.all fun q => (chains.getD j emptyTree) q == viewOf effD j q
+          let aw := "|".intercalate (altSpecs.map fun o => match o with | some t => walkListing U specContent t | none => "~")
+          let al := "|".intercalate (altSpecs.map fun o => match o with | some t => lookListing probeP specContent t | none => "~")
           let vw := "|".intercalate (views.map (walkListing U content))
           let vl := "|".intercalate (views.map (lookListing probeP content))
           let sw := "|".intercalate (specs.map (walkListing U specContent))
           let sl := "|".intercalate (specs.map (lookListing probeP specContent))
-          s!"err=0 nv={n} walk={vw} look={vl} spec_walk={sw} spec_look={sl} wf={String.join (wfs.map boolStr)} cls={"|".intercalate cls} dec={boolStr dec} fw={boolStr fw} sz={boolStr sz}"
+          s!"err=0 nv={n} walk={vw} look={vl} spec_walk={sw} spec_look={sl} wf={String.join (wfs.map boolStr)} cls={"|".intercalate cls} dec={boolStr dec} fw={boolStr fw} sz={boolStr sz} dd={boolStr dd} alt_wf={String.ofList altWf} alt_walk={aw} alt_look={al}"
     | _, _, _ => "bad-op"
   | _ => "bad-op"
 
